@@ -310,6 +310,15 @@ fn string_atoms_leg(g: &Grammar) -> Acc {
     for (l, e) in lits.chunks(200).zip(exp.chunks(200)) {
         check_batch(g, l, Some(e), &mut acc);
     }
+    // the same literals through the rule-text front end: every character of a string literal is
+    // kept verbatim there too (raw CR LF, a line of the literal that starts with //)
+    let extra: Vec<String> = vec!["\"a\r\nb\"".into(), "\"a\n// not a comment\nb\"".into(), "\"\n//\"".into(), "\"// x\"".into(), "\"a\rb\"".into()];
+    for l in lits.iter().chain(extra.iter()) {
+        for text in [format!("// n\n{l}"), format!("// n\r\n@k: {l};\r\n[{l}, x]\r\n")] {
+            record(&mut acc, "C08", &text, "Rule::parse", compare_rule_expr(g, &text), &C08_KINDS);
+            acc.count("rule_string_texts", 1);
+        }
+    }
     acc.sample("string-literal", 1, || json!(["\"é\\n😀\"", "\"\\u{1F600}//\\\"\""]));
     acc
 }
